@@ -110,8 +110,24 @@ func execMaxsat(env Env, t *world.TaskSpec, out *Outcome) {
 	switch t.Route {
 	case "api":
 		cs := make([]maxsat.Constr, len(t.Soft))
+		// a caller may well pass the same coefficient slice to several constraints (say, the item
+		// sizes of a packing problem): constraints with equal coefficient vectors share one slice here,
+		// in half of the worlds one with spare capacity
+		shared := map[string][]int{}
 		for i, s := range t.Soft {
 			cs[i] = msConstr(s)
+			if s.Form == "pb" && t.Stop {
+				k := fmt.Sprint(s.Con.Coefs)
+				if sl, ok := shared[k]; ok {
+					cs[i].Coeffs = sl
+					out.fault("caller-shares-coefficient-slice", 1)
+				} else {
+					sl := make([]int, len(s.Con.Coefs), len(s.Con.Coefs)+len(t.Soft)%3)
+					copy(sl, s.Con.Coefs)
+					shared[k] = sl
+					cs[i].Coeffs = sl
+				}
+			}
 		}
 		pb := maxsat.New(cs...)
 		model, cost := pb.Solve()
